@@ -743,7 +743,8 @@ def eval_exp_recurse(tree: lark.Tree) -> Any:
             code += f'{unaryop.children[0]}({eval_exp_recurse(op.children[1])})'
             continue
         elif op.data == 'parenexp':
-            code += f'({eval_exp_recurse(op)})'
+            inner = ' '.join(map(eval_exp_recurse, op.children))
+            code += f'({inner})'
             continue
         elif op.data == 'usub':
             code += '-'
